@@ -29,6 +29,19 @@ fn va(s: &str) -> RawAddr {
     RawAddr::valid(s)
 }
 
+/// The funds of bucket `(owner, id)`. When the implementation under test did not produce that bucket (a purchase that
+/// should have happened was refused, or the bucket was filed elsewhere) the scenario goes on with a stand-in: the steps
+/// that follow are still compared with the model one by one, and the deviation itself was reported at the step where
+/// it happened. Scenario code never panics on what the implementation does.
+fn funds_of(g: &Gen, owner: &str, id: u64) -> GenericBalance {
+    g.h.sim
+        .buckets()
+        .into_iter()
+        .find(|((o, i), _)| o.as_str() == owner && *i == id)
+        .map(|(_, b)| b.funds)
+        .unwrap_or_else(|| GenericBalance { native: natives(&[(1, "uosmo")]), cw20: vec![], nfts: vec![] })
+}
+
 // ---------------------------------------------------------------------------------------
 // corpus: the spike histories of DESIGN.md Appendix B (D1..D6)
 // ---------------------------------------------------------------------------------------
@@ -90,7 +103,7 @@ pub fn corpus(idx: usize, seed: u64, w: &mut dyn Write, thorough: bool) -> Optio
             g.step(&x("bobby", vec![], MMsg::BL { listing_id: 9, bucket_id: 9 }));
             let c0 = g.h.sim.cw721_addrs()[0].clone();
             let t0 = g.h.sim.cw20_addrs()[0].clone();
-            let tid = g.h.sim.nft_owners(&c0).into_iter().find(|(_, o)| o == "david").map(|(t, _)| t).unwrap();
+            let tid = g.h.sim.nft_owners(&c0).into_iter().find(|(_, o)| o == "david").map(|(t, _)| t).unwrap_or_else(|| "t000".to_string());
             g.step(&Op::T721 { coll: c0, sender: "david".into(), token_id: tid, inner: Inner::AB { id: 9 } });
             g.step(&Op::T20 { token: t0, sender: "david".into(), amount: 7, inner: Inner::AB { id: 9 } });
             g.step(&x("david", natives(&[(5, JUNO_DENOM), (6, "uatom")]), MMsg::AB { id: 9 }));
@@ -117,8 +130,8 @@ pub fn corpus(idx: usize, seed: u64, w: &mut dyn Write, thorough: bool) -> Optio
                 g.step(&x("carol", vec![], MMsg::FI { id: l1, seconds: 600 }));
                 g.step(&x("bobby", natives(&[(1000, JUNO_DENOM), (1000, USDC_DENOM)]), MMsg::CB { id: l1 }));
                 g.step(&x("bobby", vec![], MMsg::BL { listing_id: l1, bucket_id: l1 }));
-                let held = g.h.sim.buckets().into_iter().find(|((o, id), _)| o.as_str() == "carol" && *id == l1).map(|(_, b)| b.funds).expect("proceeds bucket");
-                let tid = g.h.sim.nft_owners(&c1).into_iter().find(|(_, o)| o == "alice").map(|(t, _)| t).unwrap();
+                let held = funds_of(&g, "carol", l1);
+                let tid = g.h.sim.nft_owners(&c1).into_iter().find(|(_, o)| o == "alice").map(|(t, _)| t).unwrap_or_else(|| "t000".to_string());
                 g.step(&Op::T721 { coll: c1.clone(), sender: "alice".into(), token_id: tid, inner: Inner::CL { id: l2, create: Create { ask: gbal_to_raw(&held), whitelist: None } } });
                 g.step(&x("alice", natives(&[(2, "uosmo")]), MMsg::AL { id: l2 }));
                 g.step(&x("alice", vec![], MMsg::FI { id: l2, seconds: 600 }));
@@ -135,7 +148,7 @@ pub fn corpus(idx: usize, seed: u64, w: &mut dyn Write, thorough: bool) -> Optio
             g.step(&x("carol", vec![], MMsg::FI { id: 36, seconds: 600 }));
             g.step(&x("david", natives(&[(3000, JUNO_DENOM), (3000, USDC_DENOM)]), MMsg::CB { id: 36 }));
             g.step(&x("david", vec![], MMsg::BL { listing_id: 36, bucket_id: 36 }));
-            let held = g.h.sim.buckets().into_iter().find(|((o, id), _)| o.as_str() == "carol" && *id == 36).map(|(_, b)| b.funds).expect("proceeds bucket");
+            let held = funds_of(&g, "carol", 36);
             g.step(&x("carol", natives(&[(4, "uosmo")]), MMsg::CL { id: 37, create: Create { ask: gbal_to_raw(&held), whitelist: None } }));
             g.step(&x("carol", vec![], MMsg::FI { id: 37, seconds: 600 }));
             g.step(&x("carol", vec![], MMsg::BL { listing_id: 37, bucket_id: 36 }));
@@ -151,7 +164,7 @@ pub fn corpus(idx: usize, seed: u64, w: &mut dyn Write, thorough: bool) -> Optio
             g.step(&x("bobby", vec![], MMsg::BL { listing_id: 41, bucket_id: 41 }));
             let mut holder = "alice";
             for (hop, (seller, lid)) in [("carol", 42u64), ("david", 43), ("bobby", 44)].iter().enumerate() {
-                let held = g.h.sim.buckets().into_iter().find(|((o, id), _)| o.as_str() == holder && *id == 41).map(|(_, b)| b.funds).expect("travelling bucket");
+                let held = funds_of(&g, holder, 41);
                 g.step(&x(seller, natives(&[(1 + hop as u128, "uosmo")]), MMsg::CL { id: *lid, create: Create { ask: gbal_to_raw(&held), whitelist: if hop == 1 { Some(RawAddr::valid(holder)) } else { None } } }));
                 g.step(&x(seller, vec![], MMsg::FI { id: *lid, seconds: 600 }));
                 g.step(&x(holder, vec![], MMsg::BL { listing_id: *lid, bucket_id: 41 }));
@@ -994,7 +1007,7 @@ pub fn boundary(idx: usize, seed: u64, w: &mut dyn Write, thorough: bool) -> Opt
                         continue;
                     }
                     let suffix = colls[j][colls[i].len()..].to_string();
-                    let long_tid = g.h.sim.nft_owners(&colls[j]).into_iter().find(|(t, o)| o == "alice" && t.starts_with("t0")).map(|(t, _)| t).unwrap();
+                    let long_tid = g.h.sim.nft_owners(&colls[j]).into_iter().find(|(t, o)| o == "alice" && t.starts_with("t0")).map(|(t, _)| t).unwrap_or_else(|| "t000".to_string());
                     let short_tid = format!("{}{}", suffix, long_tid);
                     id += 1;
                     g.step(&Op::T721 { coll: colls[j].clone(), sender: "alice".into(), token_id: long_tid.clone(), inner: Inner::CB { id } });
